@@ -66,8 +66,8 @@ func runC15(c *Ctx) {
 			c.Ob("C15-R2", "txList.Filter has a cost/gas predicate", c.FnPos(fl), false, "")
 		} else {
 			c.MustOnAccept("C15-R2", pred, 0, false, []LitReq{
-				{Name: "a transaction is kept only if cost <= balance", Re: `^Transaction#0\.Cost\(\) <= fv:costLimit$`},
-				{Name: "a transaction is kept only if gas <= limit", Re: `^Transaction#0\.Gas\(\) <= fv:gasLimit$`},
+				{Name: "a transaction is kept only if cost <= balance", Re: `^Transaction#0\.Cost\(\) <= fv:Int#0$`},
+				{Name: "a transaction is kept only if gas <= limit", Re: `^Transaction#0\.Gas\(\) <= fv:uint64#0$`},
 			})
 		}
 		// lowered caps are the thresholds
@@ -193,44 +193,70 @@ func runC15(c *Ctx) {
 			{Name: "state of the new head could be opened", Re: `^TxPool#0\.chain\.StateAt\(.*\)#1 == nil$`},
 		})
 		c.AllDominatedBy("C15-R4", rs, `^TxPool\.demoteUnexecutables$`, `^TxPool\.promoteExecutables$`, 1, "unexecutable transactions are demoted before queued ones are promoted")
-		for _, cs := range callSites(rs, `^TxPool\.addTxsLocked$`) {
-			t := f.tr.term(nil, cs.Common().Args[1], 0)
-			c.Ob("C15-R4", "reset re-injects TxDifference(discarded, included)", c.Position(cs.Pos()),
-				mustRe(`^(phi:reinject(~\d+)?|types\.TxDifference\(phi:discarded(~\d+)?, phi:included(~\d+)?\))$`).MatchString(t), "addTxsLocked("+t+")")
-			c.Ob("C15-R4", "re-injection happens after the state switch and before demotion", c.Position(cs.Pos()),
-				len(callSites(rs, `^TxPool\.demoteUnexecutables$`)) == 1 && reaches(cs.Block(), callSites(rs, `^TxPool\.demoteUnexecutables$`)[0].Block(), nil), "")
-		}
-		// reinject phi: only nil or TxDifference(discarded, included)
-		for _, b := range rs.Blocks {
-			for _, ins := range b.Instrs {
-				if p, ok := ins.(*ssa.Phi); ok && p.Comment == "reinject" {
-					for _, e := range p.Edges {
-						t := f.tr.term(nil, e, 0)
-						ok := t == "nil" || strings.HasPrefix(t, "phi:reinject") || mustRe(`^types\.TxDifference\(phi:discarded(~\d+)?, phi:included(~\d+)?\)$`).MatchString(t)
-						c.Ob("C15-R4", "reinject is nil or TxDifference(discarded, included)", c.Position(p.Pos()), ok, "value "+t)
+		// the accumulators are identified by what flows into them: transactions of blocks reached from the old head
+		// (parameter #1) are "discarded", those reached from the new head (parameter #2) are "included"
+		vc := newValueClasses(rs)
+		sideOf := func(v ssa.Value) int {
+			side := 0
+			for _, l := range phiLeaves(v) {
+				if call, ok := l.(*ssa.Call); ok && strings.HasSuffix(calleeName(&call.Call), ".GetBlock") && len(call.Call.Args) >= 2 {
+					t := f.tr.term(nil, call.Call.Args[len(call.Call.Args)-2], 0)
+					switch {
+					case strings.HasPrefix(t, "Header#0.Hash()"):
+						side |= 1
+					case strings.HasPrefix(t, "Header#1.Hash()"):
+						side |= 2
 					}
 				}
 			}
+			return side
 		}
+		var disc, incl []ssa.Value
+		for _, cs := range callSites(rs, `^append$`) {
+			call, ok := cs.(*ssa.Call)
+			if !ok || len(call.Call.Args) < 2 {
+				continue
+			}
+			if recv := methodRecv(call.Call.Args[1], "Transactions"); recv != nil {
+				switch sideOf(recv) {
+				case 1:
+					disc = append(disc, call)
+				case 2:
+					incl = append(incl, call)
+				}
+			}
+		}
+		inAny := func(v ssa.Value, set []ssa.Value) bool {
+			for _, x := range set {
+				if vc.same(v, x) {
+					return true
+				}
+			}
+			return false
+		}
+		isDiff := func(v ssa.Value) bool {
+			call, ok := v.(*ssa.Call)
+			return ok && calleeName(&call.Call) == "types.TxDifference" && inAny(call.Call.Args[0], disc) && inAny(call.Call.Args[1], incl) && !inAny(call.Call.Args[0], incl)
+		}
+		for _, cs := range callSites(rs, `^TxPool\.addTxsLocked$`) {
+			t := f.tr.term(nil, cs.Common().Args[1], 0)
+			okInj := true
+			for _, l := range phiLeaves(cs.Common().Args[1]) {
+				if !isNilConst(l) && !isDiff(l) {
+					okInj = false
+				}
+			}
+			c.Ob("C15-R4", "reset re-injects nothing or TxDifference(discarded, included)", c.Position(cs.Pos()), okInj, "addTxsLocked("+t+")")
+			c.Ob("C15-R4", "re-injection happens after the state switch and before demotion", c.Position(cs.Pos()),
+				len(callSites(rs, `^TxPool\.demoteUnexecutables$`)) == 1 && reaches(cs.Block(), callSites(rs, `^TxPool\.demoteUnexecutables$`)[0].Block(), nil), "")
+		}
+		c.Ob("C15-R4", "both walk directions collect transactions (old side twice, new side twice)", c.FnPos(rs), len(disc) == 2 && len(incl) == 2, fmt.Sprintf("discarded %d, included %d", len(disc), len(incl)))
 		// the walk that collects the dropped/added transactions runs only for shallow reorgs, measured symmetrically
 		for _, cs := range callSites(rs, `^types\.TxDifference$`) {
 			ok, w := allHave(f.At(cs), mustRe(`^math\.Abs\(\(Header#0\.Number\.Uint64\(\) - Header#1\.Number\.Uint64\(\)\)\) <= 64$`))
 			ok2, _ := allHave(f.At(cs), mustRe(`^Header#0\.Hash\(\) != Header#1\.ParentHash$`))
 			c.Ob("C15-R4", "reorg depth is |old - new| <= 64 (symmetric: shorter and longer new chains alike)", c.Position(cs.Pos()), ok && ok2, w)
 		}
-		// discarded/included accumulate the transactions of every block walked
-		nd, ni := 0, 0
-		for _, cs := range callSites(rs, `^append$`) {
-			t := f.tr.term(nil, cs.Common().Args[0], 0)
-			a := f.tr.term(nil, cs.Common().Args[1], 0)
-			if strings.HasPrefix(t, "phi:discarded") && strings.HasSuffix(a, ".Transactions()") {
-				nd++
-			}
-			if strings.HasPrefix(t, "phi:included") && strings.HasSuffix(a, ".Transactions()") {
-				ni++
-			}
-		}
-		c.Ob("C15-R4", "both walk directions collect transactions (old side twice, new side twice)", c.FnPos(rs), nd == 2 && ni == 2, fmt.Sprintf("discarded %d, included %d", nd, ni))
 	})
-	c.Min("C15-R4", 10)
+	c.Min("C15-R4", 9)
 }
